@@ -246,6 +246,26 @@ func genSMSText(c *core.Chooser, f family, target int, r *core.Run) string {
 	return sb.String()
 }
 
+// balanceGSM7 swaps one-octet and two-octet basic characters (same septet width, so every position stays where it is)
+// until the UTF-8 length of the text equals its septet count, if that is reachable.
+func balanceGSM7(text string) string {
+	sept, _ := refEncode(famGSM7U, text)
+	diff := len(sept) - len(text) // > 0: more septets than octets -> widen some ASCII letters
+	rs := []rune(text)
+	two := []rune("éñü£ΔΦ")
+	for i := 0; i < len(rs) && diff != 0; i++ {
+		switch {
+		case diff > 0 && rs[i] >= 'a' && rs[i] <= 'z':
+			rs[i] = two[i%len(two)]
+			diff--
+		case diff < 0 && strings.ContainsRune("éñü£ΔΦàèìòùÄÖÑÜäöåÅæÆøØßÉ¥§¿¡ΓΛΩΠΨΣΘΞ", rs[i]):
+			rs[i] = 'a' + rune(i%26)
+			diff++
+		}
+	}
+	return string(rs)
+}
+
 func pickTarget(c *core.Chooser, f family) int {
 	single, per := famLimits(f)
 	switch c.Pick(3, 3, 4, 2, 1) {
@@ -330,6 +350,10 @@ func runLongSMS(r *core.Run) {
 	}
 	var msgs []*lsMsg
 	usedRef := map[string]bool{}
+	afterRefusal := c.Prob(1, 25)
+	if afterRefusal && nMsg < 2 {
+		nMsg = 2
+	}
 	for i := 0; i < nMsg; i++ {
 		m := &lsMsg{id: i, sender: fmt.Sprintf("s%d", c.Intn(3))}
 		m.ref = byte(c.Intn(256))
@@ -375,7 +399,27 @@ func runLongSMS(r *core.Run) {
 		if m.vendor {
 			target = c.Range(150, 600)
 		}
+		// a refused message (more than 255 parts) followed by an ordinary long one on the very same path: what the
+		// refusal leaves behind must not touch the next message
+		if afterRefusal && i == 0 && !m.vendor && m.reqFam != famNone {
+			gf = m.reqFam
+			_, per := famLimits(gf)
+			target = 255*per + 1 + c.Intn(400)
+			r.Probe("oversize_message_first")
+		}
+		if afterRefusal && i == 1 && len(msgs) == 1 && !msgs[0].vendor && msgs[0].reqFam != famNone {
+			m.vendor, m.proto, m.req, m.reqFam, m.viaBatch = false, msgs[0].proto, msgs[0].req, msgs[0].reqFam, msgs[0].viaBatch
+			gf = m.reqFam
+			_, per := famLimits(gf)
+			target = per + 1 + c.Intn(4*per)
+		}
 		m.text = genSMSText(c, gf, target, r)
+		// UTF-8 octet count made equal to the septet count (two-octet basic characters against escaped ASCII
+		// ones): two lengths that are independent in general coincide
+		if (gf == famGSM7U || gf == famGSM7P) && m.text != "" && c.Prob(1, 5) {
+			m.text = balanceGSM7(m.text)
+			r.Probe("utf8_length_equals_septet_count")
+		}
 		if gf == famLatin1 && m.text != "" && c.Prob(1, 5) {
 			// a text of code points < U+0100 only that the coding still cannot represent
 			rs := []rune(m.text)
